@@ -779,10 +779,15 @@ def check_C03(tier):
                              "mask": [[bool(x) for x in np.ma.getmaskarray(a).ravel()[:12]] for a in arrays],
                              "result_a": repr(b[1])[:400], "result_b": repr(r[1])[:400]})
     chk.cov["payload_variant_comparisons"] = sum(len(v) - 1 for v in raw.values())
+    # the NetCDF reader (the CSV reader is payload variant 99 above): file-masked cells and MissingValue cells
+    from . import netcdfio
+
+    netcdfio.missing_data_part(chk, "C03", tier)
     chk.cov["rule"] = ("every family of EEMSCases (fuzzy operators, arithmetic with int/float kinds, cell-wise conversions, CvtFromFuzzy, data-dependent conversions on arrays) "
                        "with the missing cell in the lattice; TLC checks MaskRule (result cell missing iff an input cell there is missing or the operation is undefined there) on "
                        "EEMSOps.Sem and validates every observed result mask; each execution is repeated with different numbers hidden beneath the missing cells "
-                       "(0, -9999, 1e30/123456789, and arrays produced by the real CSV reader from MissingVal) and results must be bit-identical. "
+                       "(0, -9999, 1e30/123456789, and arrays produced by the real CSV reader from MissingVal) and results must be bit-identical; "
+                       "the NetCDF reader is run on the NetcdfIO read cases that have missing cells in the file (with and without MissingValue) and TLC validates the result masks (NetcdfIOTrace). "
                        "non-trivial = input with at least two distinct cell values")
     chk.cov["exhaustive"] = True
     chk.assumptions += ["the payload beneath a RESULT's missing cell is free"]
